@@ -18,7 +18,7 @@ meta = dict(id=sid, breaks=props[0], checked_against=props, source=src, at=time.
 try:
     readme = open(os.path.join(src, 'README.md')).read() if os.path.exists(os.path.join(src, 'README.md')) else ''
     demo = os.path.join(src, 'demo')
-    runcmd = open(os.path.join(demo, 'run.txt')).read().strip().splitlines()[-1]
+    runcmd = open(os.path.join(demo, 'run.txt')).read().strip().splitlines()[-1].replace('<outdir>', os.path.dirname(src))
     # copy demo files into the worktree at the place the run command expects: demo files named *_test.go go to the package
     # directory mentioned in run.txt (./pkg/...), other layouts are copied as demo/ under the worktree root
     placed = []
